@@ -420,10 +420,42 @@ def update (s : PoolState) (m : Option MResponse) (err : Bool) : PoolState :=
   let m' := m.map normalize
   let layout := match m' with | some x => makeLayout x | none => Cluster.zero
   if err then
-    if s.metadata.isSome then s else { s with err := true }
+    -- what the error branch writes is regenerated (`Gen.Routing.updateErrorKeepsKnown`, `updateErrorStoresErr`)
+    if KV.Gen.Routing.updateErrorKeepsKnown && s.metadata.isSome then s
+    else { s with err := if KV.Gen.Routing.updateErrorStoresErr then true else s.err }
   else
-    { metadata := m', layout := layout, err := false,
+    -- … and so is what the success branch writes (`updateSuccessSetsMetadata/Layout`, `updateSuccessClearsErr`)
+    { metadata := if KV.Gen.Routing.updateSuccessSetsMetadata then m' else s.metadata,
+      layout := if KV.Gen.Routing.updateSuccessSetsLayout then layout else s.layout,
+      err := if KV.Gen.Routing.updateSuccessClearsErr then false else s.err,
       conns := applySets KV.Gen.Routing.updateApplyOrder s.conns (delSet s.layout.brokers layout.brokers)
         ((addSet s.layout.brokers layout.brokers).map (fun id => (id, (lookupD layout.brokers id Broker.zero).addr))) }
+
+/-! ## Prepare: what the negotiated version changes in the body beyond the field layout -/
+
+/-- protocol/produce Prepare: the record format (magic) a partition's record set is written with, given the API version
+of the request and the `RecordSet.Version` the caller supplied (0 = unset); the decision is regenerated from the source -/
+def produceMagic (apiVersion given : Int) : Int :=
+  if KV.Gen.Routing.produceKeepsExplicitVersion && given != 0 then given
+  else KV.Gen.Routing.produceRecordVersion apiVersion
+
+/-- protocol/leavegroup Prepare + the version ranges of the two fields: what a LeaveGroup request carries on the wire,
+(MemberID, member ids of Members) -/
+def leaveGroupWire (apiVersion : Int) (memberID : String) (members : List String) : String × List String :=
+  let id := if KV.Gen.Routing.leaveGroupCopiesFirstMember apiVersion members.length then members.headD "" else memberID
+  if apiVersion < 3 then (id, []) else ("", members)
+
+/-! ## Split: what the parts carry of the original request -/
+
+/-- does every sub-request `Split` of package `pkg` builds set the request's field `f`? (regenerated table) -/
+def splitCarries (pkg f : String) : Bool :=
+  match KV.Gen.Routing.splitSubrequests.find? (·.1 == pkg) with
+  | some (_, _, subs) => subs.all fun s => s.any (·.1 == f)
+  | none => true
+
+/-- value of a boolean option of the caller's request as it arrives at a broker at `apiVersion`, when the caller set it:
+carried by the part (Split) and present on the wire from version `since` on -/
+def optionArrives (pkg option : String) (since apiVersion : Int) : Bool :=
+  splitCarries pkg option && decide (since ≤ apiVersion)
 
 end KV.Routing
